@@ -4,6 +4,7 @@ go 1.23
 
 require (
 	github.com/anishathalye/porcupine v1.3.0
+	github.com/magiconair/properties v1.8.7
 	github.com/whatap/golib v0.0.0
 )
 
